@@ -354,3 +354,281 @@ def rule_w1(repo, res, which=("quoted", "symbol", "flags")):
                                     "symbol is split over two lines, which ODL forbids for symbol strings",
                                     where=f"pvl/encoder.py:{call.lineno}"))
         res.floor(f"{enc}: format() calls that receive the encoded value", len(tainted_calls), 1)
+
+
+# ------------------------------------------------------------------ C12 surface rules
+def _init_defaults(repo, cls):
+    init = repo.classes[cls].methods.get("__init__")
+    if init is None:
+        return None, {}
+    a = init.args
+    names = [x.arg for x in a.args]
+    d = {}
+    for name, dv in zip(names[len(names) - len(a.defaults):], a.defaults):
+        if isinstance(dv, ast.Constant):
+            d[name] = dv.value
+    return init, d
+
+
+def _super_init_call(init):
+    for n in ast.walk(init):
+        if isinstance(n, ast.Call) and isinstance(n.func, ast.Attribute) and n.func.attr == "__init__" and \
+                isinstance(n.func.value, ast.Call) and norm(n.func.value.func) == "super":
+            return n
+    return None
+
+
+def rule_c12_config(repo, res):
+    """Fixed PDS3 configuration and the dialect defaults of the other encoders."""
+    want = {"PVLEncoder": {"end_delimiter": True, "newline": "\n"},
+            "ODLEncoder": {"end_delimiter": False, "newline": "\r\n"},
+            "ISISEncoder": {"end_delimiter": False, "newline": "\n"}}
+    for cls, w in want.items():
+        init, d = _init_defaults(repo, cls)
+        if init is None:
+            raise AnalysisError(f"anchor vanished: {cls}.__init__")
+        for k, v in w.items():
+            ok = d.get(k, "<missing>") == v
+            res.oblige("CFG", f"{cls}(): default {k}={v!r}", ok=ok)
+            if not ok:
+                res.add(Finding("CFG", f"{cls}.__init__", f"default {k}",
+                                f"{cls}() defaults to {k}={d.get(k, '<missing>')!r}; the dialect writes {k}={v!r} "
+                                f"({'CR-LF line ends' if v == chr(13) + chr(10) else 'statement delimiters' if k == 'end_delimiter' else 'LF line ends'})",
+                                where=f"pvl/encoder.py:{init.lineno}"))
+        if cls != "PVLEncoder":
+            call = _super_init_call(init)
+            # the options are passed on to the base constructor in the base's positional order / by keyword
+            base_init = repo.classes["PVLEncoder"].methods["__init__"]
+            bparams = [a.arg for a in base_init.args.args][1:]
+            passed = {}
+            if call is not None:
+                for p, a in zip(bparams, call.args):
+                    passed[p] = norm(a)
+                for kw in call.keywords:
+                    if kw.arg:
+                        passed[kw.arg] = norm(kw.value)
+            for k in ("end_delimiter", "newline", "indent", "width", "aggregation_end"):
+                ok = passed.get(k) == k
+                res.oblige("CFG", f"{cls}.__init__ forwards {k} to the base constructor", ok=ok)
+                if not ok:
+                    res.add(Finding("CFG", f"{cls}.__init__", f"forwards {k}",
+                                    f"{cls}.__init__ passes {passed.get(k)!r} as {k} to PVLEncoder.__init__: the option given "
+                                    "by the caller (or the dialect default) does not take effect", where=f"pvl/encoder.py:{init.lineno}"))
+    init, d = _init_defaults(repo, "PDSLabelEncoder")
+    params = [a.arg for a in init.args.args]
+    for k in ("newline", "end_delimiter"):
+        ok = k not in params
+        res.oblige("CFG", f"PDSLabelEncoder.__init__ does not expose {k}", ok=ok)
+        if not ok:
+            res.add(Finding("CFG", "PDSLabelEncoder.__init__", f"exposes {k}", f"PDSLabelEncoder lets the caller choose {k}; "
+                            "PDS3 labels have CR-LF line ends and no statement delimiters", where=f"pvl/encoder.py:{init.lineno}"))
+    call = _super_init_call(init)
+    base_params = [a.arg for a in repo.classes["ODLEncoder"].methods["__init__"].args.args][1:]
+    passed = {}
+    if call is not None:
+        for p, a in zip(base_params, call.args):
+            passed[p] = a
+        for kw in call.keywords:
+            if kw.arg:
+                passed[kw.arg] = kw.value
+    for k, v in (("newline", "\r\n"), ("end_delimiter", False)):
+        a = passed.get(k)
+        ok = isinstance(a, ast.Constant) and a.value == v
+        res.oblige("CFG", f"PDSLabelEncoder.__init__ passes {k}={v!r} to ODLEncoder.__init__", ok=ok)
+        if not ok:
+            res.add(Finding("CFG", "PDSLabelEncoder.__init__", f"passes {k}",
+                            f"PDSLabelEncoder.__init__ passes {norm(a) if a is not None else 'nothing'} as {k}; PDS3 fixes it to {v!r}",
+                            where=f"pvl/encoder.py:{init.lineno}"))
+    for k, v in (("convert_group_to_object", True), ("tab_replace", 4), ("symbol_single_quote", True), ("time_trailing_z", True)):
+        ok = d.get(k, "<missing>") == v
+        res.oblige("CFG", f"PDSLabelEncoder(): default {k}={v!r}", ok=ok)
+        if not ok:
+            res.add(Finding("CFG", "PDSLabelEncoder.__init__", f"default {k}", f"PDSLabelEncoder() defaults to {k}={d.get(k, '<missing>')!r}",
+                            where=f"pvl/encoder.py:{init.lineno}"))
+        stored = any(isinstance(n, ast.Assign) and norm(n.targets[0]) == f"self.{k}" and norm(n.value) == k for n in ast.walk(init))
+        res.oblige("CFG", f"PDSLabelEncoder.__init__ stores {k}", ok=stored)
+        if not stored:
+            res.add(Finding("CFG", "PDSLabelEncoder.__init__", f"stores {k}", f"self.{k} is not set from the {k} argument",
+                            where=f"pvl/encoder.py:{init.lineno}"))
+    # the base constructor stores the layout options
+    binit = repo.classes["PVLEncoder"].methods["__init__"]
+    for k in ("indent", "width", "end_delimiter", "aggregation_end", "newline"):
+        stored = any(isinstance(n, ast.Assign) and norm(n.targets[0]) == f"self.{k}" and norm(n.value) == k for n in ast.walk(binit))
+        res.oblige("CFG", f"PVLEncoder.__init__ stores {k}", ok=stored)
+        if not stored:
+            res.add(Finding("CFG", "PVLEncoder.__init__", f"stores {k}", f"self.{k} is not set from the {k} argument",
+                            where=f"pvl/encoder.py:{binit.lineno}"))
+
+
+def _guarded_by(node, fn, cond_src):
+    n = node
+    while n is not None and n is not fn:
+        p = getattr(n, "_parent", None)
+        if isinstance(p, ast.If) and norm(p.test) == cond_src and n in p.body:
+            return True
+        n = p
+    return False
+
+
+def rule_c12_structure(repo, res):
+    """Statement forms: delimiters only under end_delimiter; block keywords paired from one preferred-keyword tuple;
+    END line; character sweep; PDS3 tab replacement; every line formatted at its nesting level."""
+    n_delims = 0
+    for cls in encoder_classes(repo):
+        for m, fn in repo.classes[cls].methods.items():
+            for n in ast.walk(fn):
+                if isinstance(n, ast.Attribute) and norm(n) == "self.grammar.delimiters":
+                    n_delims += 1
+                    ok = _guarded_by(n, fn, "self.end_delimiter")
+                    res.oblige("DELIM", f"{cls}.{m}: `{norm(getattr(n, '_parent', n), 50)}` is written only when self.end_delimiter", ok=ok)
+                    if not ok:
+                        res.add(Finding("DELIM", f"{cls}.{m}", norm(getattr(n, "_parent", n), 60),
+                                        f"{cls}.{m} writes a statement delimiter outside `if self.end_delimiter:`: dialects "
+                                        "without statement delimiters (ODL, PDS3, ISIS) get them", where=f"pvl/encoder.py:{n.lineno}"))
+    res.floor("uses of grammar.delimiters in the encoders", n_delims, 4)
+    # block keywords
+    fn = repo.method("PVLEncoder", "encode_aggregation_block")
+    src = norm(fn, 8000)
+    kv = None
+    for n in ast.walk(fn):
+        if isinstance(n, ast.If) and "isinstance(value, self.grpcls)" in norm(n.test):
+            b = [x for x in n.body if isinstance(x, ast.Assign)]
+            o = n.orelse[0] if n.orelse and isinstance(n.orelse[0], ast.If) else None
+            ob = [x for x in (o.body if o else []) if isinstance(x, ast.Assign)]
+            if b and ob and norm(b[0].targets[0]) == norm(ob[0].targets[0]):
+                kv = (norm(b[0].targets[0]), norm(b[0].value), norm(ob[0].value))
+    ok = kv is not None and kv[1] == "self.grammar.group_pref_keywords" and kv[2] == "self.grammar.object_pref_keywords"
+    res.oblige("BLOCK", "encode_aggregation_block: group containers get group_pref_keywords, other mappings object_pref_keywords", ok=ok)
+    if not ok:
+        res.add(Finding("BLOCK", "PVLEncoder.encode_aggregation_block", "keyword selection",
+                        f"encode_aggregation_block selects block keywords as {kv}: groups and objects are written with "
+                        "the wrong (or mismatched) begin/end keywords", where=f"pvl/encoder.py:{fn.lineno}"))
+    var = kv[0] if kv else "agg_keywords"
+    begin_ok = any(isinstance(n, ast.Call) and isinstance(n.func, ast.Attribute) and n.func.attr == "format" and
+                   [norm(a) for a in n.args] == [f"{var}[0]", "key"] for n in ast.walk(fn))
+    end_named = any(isinstance(n, ast.Call) and isinstance(n.func, ast.Attribute) and n.func.attr == "format" and
+                    [norm(a) for a in n.args] == [f"{var}[1]", "key"] and _guarded_by(n, fn, "self.aggregation_end") for n in ast.walk(fn))
+    end_plain = any(isinstance(n, ast.AugAssign) and norm(n.value) == f"{var}[1]" for n in ast.walk(fn))
+    for what, ok in (("begin statement '<begin keyword> = <name>' from keywords[0]", begin_ok),
+                     ("end statement '<end keyword> = <name>' from keywords[1] when aggregation_end", end_named),
+                     ("bare end keyword keywords[1] otherwise", end_plain)):
+        res.oblige("BLOCK", f"encode_aggregation_block: {what}", ok=ok)
+        if not ok:
+            res.add(Finding("BLOCK", "PVLEncoder.encode_aggregation_block", what,
+                            f"encode_aggregation_block no longer writes the {what}: a block is not closed by its matching "
+                            "end statement (or carries the wrong name)", where=f"pvl/encoder.py:{fn.lineno}"))
+    # every line of a block is formatted at its level; the body one level deeper
+    fmt = [n for n in ast.walk(fn) if isinstance(n, ast.Call) and norm(n.func) == "self.format"]
+    ok = len(fmt) >= 2 and all(len(c.args) == 2 and norm(c.args[1]) == "level" for c in fmt)
+    body = any(isinstance(n, ast.Call) and norm(n.func) == "self.encode_module" and len(n.args) == 2 and norm(n.args[1]) == "level + 1"
+               for n in ast.walk(fn))
+    res.oblige("INDENT", "encode_aggregation_block: begin/end lines formatted at `level`, body encoded at `level + 1`", ok=ok and body)
+    if not (ok and body):
+        res.add(Finding("INDENT", "PVLEncoder.encode_aggregation_block", "levels",
+                        "begin/end statements are no longer formatted at the block's level with the body one level deeper",
+                        where=f"pvl/encoder.py:{fn.lineno}"))
+    fm = repo.method("PVLEncoder", "encode_module")
+    calls = {norm(n.func): [norm(a) for a in n.args] for n in ast.walk(fm) if isinstance(n, ast.Call) and norm(n.func).startswith("self.encode_")}
+    ok = calls.get("self.encode_aggregation_block", [None] * 3)[2:3] == ["level"] and \
+        calls.get("self.encode_assignment", [None] * 4)[2:4] == ["level", "longest_key_len"]
+    res.oblige("INDENT", "encode_module: every item is encoded at `level`, assignments aligned on the longest non-block key", ok=ok)
+    if not ok:
+        res.add(Finding("INDENT", "PVLEncoder.encode_module", "levels/alignment", f"encode_module calls {calls}",
+                        where=f"pvl/encoder.py:{fm.lineno}"))
+    lk = [n for n in ast.walk(fm) if isinstance(n, ast.Assign) and norm(n.targets[0]) == "longest_key_len"]
+    ok = bool(lk) and norm(lk[0].value).startswith("max(") and "default=0" in norm(lk[0].value)
+    res.oblige("INDENT", "encode_module: alignment width = max(len(key) of non-block items, default=0)", ok=ok)
+    if not ok:
+        res.add(Finding("INDENT", "PVLEncoder.encode_module", "longest_key_len", "alignment width is no longer the longest non-block key",
+                        where=f"pvl/encoder.py:{fm.lineno}"))
+    ff = repo.method("PVLEncoder", "format")
+    pre = [n for n in ast.walk(ff) if isinstance(n, ast.Assign) and norm(n.targets[0]) == "prefix"]
+    ok = bool(pre) and norm(pre[0].value).replace(" ", "") in ("level*(self.indent*'')".replace(" ", ""), "level*self.indent*''",
+                                                             "self.indent*level*''", "level*(self.indent*' ')".replace(" ", ""))
+    srcp = norm(pre[0].value) if pre else ""
+    ok = bool(pre) and "level" in srcp and "self.indent" in srcp and "' '" in srcp and srcp.count("*") == 2
+    res.oblige("INDENT", "format: prefix = level * indent spaces", ok=ok)
+    if not ok:
+        res.add(Finding("INDENT", "PVLEncoder.format", "prefix", f"format() computes the indentation as `{srcp}`",
+                        where=f"pvl/encoder.py:{ff.lineno}"))
+    rets = [r for r in ast.walk(ff) if isinstance(r, ast.Return)]
+    ok = any(norm(r.value) == "prefix + s" for r in rets) and any("self.newline.join(lines)" in norm(r.value) for r in rets)
+    res.oblige("INDENT", "format: returns prefix + s, or the wrapped lines joined by self.newline", ok=ok)
+    if not ok:
+        res.add(Finding("INDENT", "PVLEncoder.format", "returns", "format() no longer returns prefix + s / newline-joined wrapped lines",
+                        where=f"pvl/encoder.py:{ff.lineno}"))
+    # encode(): END line, sweep
+    fe = repo.method("PVLEncoder", "encode")
+    end = [n for n in ast.walk(fe) if isinstance(n, ast.Assign) and norm(n.value) == "self.grammar.end_statements[0]"]
+    appended = any(isinstance(n, ast.Call) and norm(n.func).endswith(".append") and end and norm(n.args[0]) == norm(end[0].targets[0])
+                   for n in ast.walk(fe))
+    res.oblige("END", "PVLEncoder.encode appends the END statement (grammar.end_statements[0]) as the last line", ok=bool(end) and appended)
+    if not (end and appended):
+        res.add(Finding("END", "PVLEncoder.encode", "END line", "encode() no longer ends the text with the grammar's END statement",
+                        where=f"pvl/encoder.py:{fe.lineno}"))
+    sweep = [n for n in fe.body if isinstance(n, ast.For)]
+    ok = False
+    if sweep:
+        lp = sweep[-1]
+        ok = any(isinstance(n, ast.Call) and norm(n.func) == "self.grammar.char_allowed" for n in ast.walk(lp)) and \
+            any(isinstance(n, ast.Raise) for n in ast.walk(lp)) and isinstance(fe.body[-1], ast.Return) and fe.body.index(lp) < len(fe.body) - 1
+        # the text swept is the text returned
+        it = norm(lp.iter)
+        swept = it[len("enumerate("):-1] if it.startswith("enumerate(") else it
+        defs = [n for n in fe.body if isinstance(n, ast.Assign) and norm(n.targets[0]) == swept]
+        ok = ok and bool(defs) and norm(defs[0].value) == norm(fe.body[-1].value)
+    res.oblige("SWEEP", "PVLEncoder.encode: every character of the returned text passes grammar.char_allowed or ValueError is raised", ok=ok)
+    if not ok:
+        res.add(Finding("SWEEP", "PVLEncoder.encode", "character sweep",
+                        "the final character-set sweep over the encoder output is missing, not on the path to the return, "
+                        "does not use self.grammar.char_allowed, or sweeps a text other than the one returned",
+                        where=f"pvl/encoder.py:{fe.lineno}"))
+    nots = [n for n in ast.walk(fe) if isinstance(n, ast.If) and "char_allowed" in norm(n.test)]
+    ok = bool(nots) and isinstance(nots[0].test, ast.UnaryOp) and isinstance(nots[0].test.op, ast.Not) and any(isinstance(b, ast.Raise) for b in nots[0].body)
+    res.oblige("SWEEP", "PVLEncoder.encode raises when char_allowed is false (not the reverse)", ok=ok)
+    if not ok:
+        res.add(Finding("SWEEP", "PVLEncoder.encode", "polarity", "the sweep does not raise on `not char_allowed(c)`",
+                        where=f"pvl/encoder.py:{fe.lineno}"))
+    # ODL: final line end; PDS3: tab replacement
+    fo = repo.method("ODLEncoder", "encode")
+    rets = [r for r in ast.walk(fo) if isinstance(r, ast.Return)]
+    sup = any(isinstance(n, ast.Call) and norm(n.func) == "super().encode" for n in ast.walk(fo))
+    ok = sup and bool(rets) and all(norm(r.value).endswith("+ self.newline") for r in rets)
+    res.oblige("END", "ODLEncoder.encode returns super().encode(module) + self.newline (END followed by a line end)", ok=ok)
+    if not ok:
+        res.add(Finding("END", "ODLEncoder.encode", "final line end", "ODLEncoder.encode no longer appends the final line end after END",
+                        where=f"pvl/encoder.py:{fo.lineno}"))
+    fp = repo.method("PDSLabelEncoder", "encode")
+    rets = [r for r in fp.body[-1:] if isinstance(r, (ast.If, ast.Return))]
+    tabs = [n for n in ast.walk(fp) if isinstance(n, ast.Call) and isinstance(n.func, ast.Attribute) and n.func.attr == "replace"
+            and n.args and isinstance(n.args[0], ast.Constant) and n.args[0].value == "\t"]
+    ok = bool(tabs) and _guarded_by(tabs[0], fp, "self.tab_replace > 0") and any(
+        isinstance(n, ast.Assign) and norm(n.value) == "super().encode(module)" for n in ast.walk(fp))
+    res.oblige("TAB", "PDSLabelEncoder.encode replaces tab characters in the text it returns (tab_replace > 0)", ok=ok)
+    if not ok:
+        res.add(Finding("TAB", "PDSLabelEncoder.encode", "tab replacement", "PDSLabelEncoder.encode no longer replaces tab "
+                        "characters on its return path: PDS3 labels may not contain tabs", where=f"pvl/encoder.py:{fp.lineno}"))
+    # ODL: units only after numbers; key upper-cased; guards dominate emission
+    fv = repo.method("ODLEncoder", "encode_value")
+    ok = False
+    for n in ast.walk(fv):
+        if isinstance(n, ast.If) and "isinstance(value, quant.cls)" in norm(n.test):
+            inner = [x for x in n.body if isinstance(x, ast.If)]
+            if inner and "self.numeric_types" in norm(inner[0].test) and any(isinstance(b, ast.Return) for b in inner[0].body) and \
+                    inner[0].orelse and any(isinstance(b, ast.Raise) for b in inner[0].orelse):
+                ok = True
+    res.oblige("UNITS", "ODLEncoder.encode_value: a quantity is written only when its value is numeric, else ValueError", ok=ok)
+    if not ok:
+        res.add(Finding("UNITS", "ODLEncoder.encode_value", "numeric test", "ODLEncoder.encode_value no longer restricts units "
+                        "expressions to numeric values", where=f"pvl/encoder.py:{fv.lineno}"))
+    fa = repo.method("ODLEncoder", "encode_assignment")
+    up = [n for n in ast.walk(fa) if isinstance(n, ast.Assign) and norm(n.value) == "key.upper()"]
+    used = bool(up) and any(isinstance(n, ast.Call) and isinstance(n.func, ast.Attribute) and n.func.attr == "format" and
+                            any(norm(up[0].targets[0]) in norm(a) for a in n.args) for n in ast.walk(fa))
+    raw = any(isinstance(n, ast.Call) and isinstance(n.func, ast.Attribute) and n.func.attr == "format" and
+              any(norm(a).startswith("key") for a in n.args) for n in ast.walk(fa))
+    ok = used and not raw
+    res.oblige("UPPER", "ODLEncoder.encode_assignment writes key.upper(), never the key as given", ok=ok)
+    if not ok:
+        res.add(Finding("UPPER", "ODLEncoder.encode_assignment", "key.upper()", "ODL/PDS3 parameter names are no longer upper-cased",
+                        where=f"pvl/encoder.py:{fa.lineno}"))
